@@ -27,7 +27,7 @@ def main():
         sh("rsync -rlpD --checksum --delete --exclude target --exclude .git /repo/ %s/" % SCR)
     elif sh("git -C /repo status --porcelain --untracked-files=no").stdout.strip():
         print("refusing: /repo has uncommitted changes"); return 2
-    res_path = os.path.join(SEEDED, "RESULTS.json")
+    res_path = os.environ.get("VERIF_RESULTS", os.path.join(SEEDED, "RESULTS.json"))
     results = json.load(open(res_path)) if os.path.exists(res_path) else {}
     for name in names:
         d = os.path.join(SEEDED, name)
